@@ -142,7 +142,7 @@ impl Sc for ZH {
         match r.below(5) { 0 => ZH::variable(), 1 => -ZH::variable(), _ => ZH::from_const(r.range(-2, 2)) }
     }
 }
-use num_traits::Zero;
+use num_traits::{One, Zero};
 
 // ---------------------------------------------------------------------------------------------------------
 // dense matrices (naive arithmetic of the oracle)
@@ -200,6 +200,12 @@ where R: Sc, for<'x> &'x R: RingOps<R> {
     fn to_lib(&self) -> GenericChainComplex<R> {
         let d: Vec<SpMat<R>> = self.d.iter().map(|m| m.to_sp()).collect();
         GenericChainComplex::generate(0..=(self.k as isize), -1, move |i| d[i as usize].clone())
+    }
+    /// the same complex with cohomological indexing: library degree `p` = our degree `k - p`, `d_deg = +1`
+    fn to_lib_coh(&self) -> GenericChainComplex<R> {
+        let k = self.k;
+        let d: Vec<SpMat<R>> = self.d.iter().map(|m| m.to_sp()).collect();
+        GenericChainComplex::generate(0..=(k as isize), 1, move |p| d[k - p as usize].clone())
     }
     fn from_lib(c: &GenericChainComplex<R>) -> Option<Self> {
         let sup: Vec<isize> = c.support().collect();
@@ -349,20 +355,37 @@ enum Mode {
 }
 
 #[derive(Clone)]
-struct Run<R> { mode: Mode, with_trans: bool, threads: usize, vecs: Vec<Vec<Vec<R>>> }
+struct Run<R> {
+    mode: Mode,
+    with_trans: bool,
+    /// `Some(mask)`: build the reducer with `new` + `set_matrix(i, d, mask[i])` (transfer maps only in some degrees;
+    /// `mask[k+1]` = whether the extra boundary matrix (degree `-1` resp. `k+1`) is registered at all)
+    mixed: Option<Vec<bool>>,
+    /// run on the cohomological re-indexing of the same complex (`d_deg = +1`, library degree `p` = our `k - p`)
+    coh: bool,
+    threads: usize,
+    vecs: Vec<Vec<Vec<R>>>,
+    /// the tracked vectors of degree i-1 end with the images d_i v of the tracked vectors of degree i
+    chained: bool,
+}
 
 struct Out<R> {
     m: Vec<usize>,
     d: Vec<D<R>>,                 // reduced differentials, d[0] = 0 × m[0]
-    f: Option<Vec<D<R>>>,
-    b: Option<Vec<D<R>>>,
+    f: Vec<Option<D<R>>>,
+    b: Vec<Option<D<R>>>,
     vecs: Vec<Vec<Vec<R>>>,
+    /// `Trans::forward(v)` / `backward(w)` agree with `forward_mat() * v` / `backward_mat() * w` on probe vectors
+    trans_apply: Option<String>,
 }
 
 fn pt_txt(t: PivotType) -> &'static str { match t { PivotType::Rows => "R", PivotType::Cols => "C" } }
 fn pc_txt(c: PivotCondition) -> String { match c { PivotCondition::One => "one".into(), PivotCondition::AnyUnit => "unit".into(), PivotCondition::Weight(w) => format!("w{}", w) } }
 
-impl<R> Run<R> {
+impl<R: Clone> Run<R> {
+    fn plain(mode: Mode, with_trans: bool, threads: usize, k: usize) -> Self {
+        Run { mode, with_trans, mixed: None, coh: false, threads, vecs: vec![vec![]; k + 1], chained: false }
+    }
     fn txt(&self) -> String {
         let m = match &self.mode {
             Mode::Reduce => "reduce".to_string(),
@@ -373,52 +396,89 @@ impl<R> Run<R> {
                 Step::All(deep) => format!("all({})", if *deep { "deep" } else { "shallow" }),
             }).collect::<Vec<_>>().join(";"),
         };
-        format!("{} trans={} threads={} vecs=[{}]", m, self.with_trans, self.threads,
+        format!("{} trans={} mixed={:?} d_deg={} threads={} vecs=[{}]", m, self.with_trans, self.mixed, if self.coh { "+1" } else { "-1" }, self.threads,
             self.vecs.iter().map(|v| v.len().to_string()).collect::<Vec<_>>().join(","))
     }
+}
+
+fn probe<R>(n: usize, salt: usize) -> Vec<R>
+where R: Sc, for<'x> &'x R: RingOps<R> {
+    (0..n).map(|j| R::from_i(((j * 7 + salt * 3 + 1) % 5) as i64 - 2)).collect()
+}
+
+fn spvec<R>(v: &[R]) -> SpVec<R>
+where R: Sc, for<'x> &'x R: RingOps<R> {
+    SpVec::from_entries(v.len(), v.iter().cloned().enumerate().filter(|(_, x)| !x.is_zero()))
 }
 
 fn execute<R>(c: &Cx<R>, run: &Run<R>) -> Out<R>
 where R: Sc, for<'x> &'x R: RingOps<R> {
     let k = c.k;
-    let lib = c.to_lib();
+    // library degree of our degree j
+    let li = |j: usize| -> isize { if run.coh { (k - j) as isize } else { j as isize } };
+    let d_deg: isize = if run.coh { 1 } else { -1 };
+    let lib = if run.coh { c.to_lib_coh() } else { c.to_lib() };
     if let Mode::ReducedApi = run.mode {
         let red = lib.reduced();
-        let d: Vec<D<R>> = (0..=k).map(|i| D::from_sp(&red.d_matrix(i as isize))).collect();
-        let m: Vec<usize> = (0..=k).map(|i| red[i as isize].rank()).collect();
-        let f = (0..=k).map(|i| D::from_sp(&red[i as isize].trans().forward_mat())).collect();
-        let b = (0..=k).map(|i| D::from_sp(&red[i as isize].trans().backward_mat())).collect();
-        return Out { m, d, f: Some(f), b: Some(b), vecs: vec![vec![]; k + 1] };
+        let d: Vec<D<R>> = (0..=k).map(|i| D::from_sp(&red.d_matrix(li(i)))).collect();
+        let m: Vec<usize> = (0..=k).map(|i| red[li(i)].rank()).collect();
+        let f = (0..=k).map(|i| Some(D::from_sp(&red[li(i)].trans().forward_mat()))).collect();
+        let b = (0..=k).map(|i| Some(D::from_sp(&red[li(i)].trans().backward_mat()))).collect();
+        return Out { m, d, f, b, vecs: vec![vec![]; k + 1], trans_apply: None };
     }
-    let red = match &run.mode {
-        Mode::Reduce => ChainReducer::reduce(&lib, run.with_trans),
-        Mode::Script(steps) => {
+    let script = |red: &mut ChainReducer<isize, R>, steps: &Vec<Step>| {
+        for (i, vs) in run.vecs.iter().enumerate() {
+            for v in vs { red.add_vec(li(i), spvec(v)); }
+        }
+        for st in steps {
+            match st {
+                Step::Spec(i, t, cond) => { red.reduce_at_spec(li(*i), *t, *cond); }
+                Step::At(i, deep) => red.reduce_at(li(*i), *deep),
+                Step::All(deep) => red.reduce_all(*deep),
+            }
+        }
+    };
+    let red = match (&run.mode, &run.mixed) {
+        (Mode::Reduce, _) => ChainReducer::reduce(&lib, run.with_trans),
+        (Mode::Script(steps), None) => {
             let mut red = ChainReducer::from(&lib, run.with_trans);
-            for (i, vs) in run.vecs.iter().enumerate() {
-                for v in vs {
-                    let sv = SpVec::from_entries(c.n[i], v.iter().cloned().enumerate().filter(|(_, x)| !x.is_zero()));
-                    red.add_vec(i as isize, sv);
-                }
-            }
-            for st in steps {
-                match st {
-                    Step::Spec(i, t, cond) => { red.reduce_at_spec(*i as isize, *t, *cond); }
-                    Step::At(i, deep) => red.reduce_at(*i as isize, *deep),
-                    Step::All(deep) => red.reduce_all(*deep),
-                }
-            }
+            script(&mut red, steps);
             red
         }
-        Mode::ReducedApi => unreachable!(),
+        (Mode::Script(steps), Some(mask)) => {
+            let mut red = ChainReducer::new(lib.support(), d_deg);
+            for j in 0..=k { red.set_matrix(li(j), lib.d_matrix(li(j)), mask[j]); }
+            if mask[k + 1] {
+                // the matrix one step beyond the support (0 x 0 resp. n_k x 0)
+                let e = if run.coh { -1 } else { -1 };
+                let extra: isize = if run.coh { k as isize + 1 } else { e };
+                red.set_matrix(extra, lib.d_matrix(extra), mask[0]);
+            }
+            script(&mut red, steps);
+            red
+        }
+        (Mode::ReducedApi, _) => unreachable!(),
     };
-    let d: Vec<D<R>> = (0..=k).map(|i| D::from_sp(red.matrix(i as isize).unwrap())).collect();
+    let d: Vec<D<R>> = (0..=k).map(|i| D::from_sp(red.matrix(li(i)).unwrap())).collect();
     let m: Vec<usize> = d.iter().map(|x| x.c).collect();
-    let (f, b) = if run.with_trans {
-        (Some((0..=k).map(|i| D::from_sp(&red.trans(i as isize).unwrap().forward_mat())).collect()),
-         Some((0..=k).map(|i| D::from_sp(&red.trans(i as isize).unwrap().backward_mat())).collect()))
-    } else { (None, None) };
-    let vecs = (0..=k).map(|i| red.vecs(i as isize).map(|vs| vs.iter().map(|v| v.to_dense()).collect()).unwrap_or_default()).collect();
-    Out { m, d, f, b, vecs }
+    let f: Vec<Option<D<R>>> = (0..=k).map(|i| red.trans(li(i)).map(|t| D::from_sp(&t.forward_mat()))).collect();
+    let b: Vec<Option<D<R>>> = (0..=k).map(|i| red.trans(li(i)).map(|t| D::from_sp(&t.backward_mat()))).collect();
+    let vecs = (0..=k).map(|i| red.vecs(li(i)).map(|vs| vs.iter().map(|v| v.to_dense()).collect()).unwrap_or_default()).collect();
+    // vector application of the transfer maps vs. their matrices
+    let mut trans_apply = None;
+    for i in 0..=k {
+        if let (Some(t), Some(fm), Some(bm)) = (red.trans(li(i)), &f[i], &b[i]) {
+            if t.src_dim() != c.n[i] || t.tgt_dim() != m[i] { trans_apply = Some(format!("dims of trans({}) are {}->{}", i, t.src_dim(), t.tgt_dim())); continue; }
+            if (fm.r, fm.c) != (m[i], c.n[i]) || (bm.r, bm.c) != (c.n[i], m[i]) { continue; } // reported by the shape oracle
+            let v = probe::<R>(c.n[i], i);
+            let w = probe::<R>(m[i], i + 1);
+            let fv = t.forward(&spvec(&v)).to_dense();
+            let bw = t.backward(&spvec(&w)).to_dense();
+            if fv != fm.mul(&D::from_cols(c.n[i], &[v])).col(0) { trans_apply = Some(format!("forward(v) != forward_mat*v in degree {}", i)); }
+            if bw != bm.mul(&D::from_cols(m[i], &[w])).col(0) { trans_apply = Some(format!("backward(w) != backward_mat*w in degree {}", i)); }
+        }
+    }
+    Out { m, d, f, b, vecs, trans_apply: Some(trans_apply.unwrap_or_default()) }
 }
 
 // ---------------------------------------------------------------------------------------------------------
@@ -607,8 +667,22 @@ where R: Sc, for<'x> &'x R: RingOps<R> {
     } else { (None, None) };
     let hs = |h: &Option<String>| h.clone().unwrap_or_else(|| "?".into());
 
-    match (&out.f, &out.b) {
-        (Some(f), Some(b)) => {
+    if let Some(e) = &out.trans_apply {
+        s.oracle(e.is_empty(), "Trans::forward / backward on vectors agree with forward_mat / backward_mat", &desc, e);
+    }
+    let full: Option<(Vec<D<R>>, Vec<D<R>>)> = if out.f.iter().all(|x| x.is_some()) && out.b.iter().all(|x| x.is_some()) {
+        Some((out.f.iter().map(|x| x.clone().unwrap()).collect(), out.b.iter().map(|x| x.clone().unwrap()).collect()))
+    } else { None };
+    let any_trans = out.f.iter().any(|x| x.is_some());
+    if run.with_trans && run.mixed.is_none() {
+        s.oracle(full.is_some(), "transfer maps are reported in every degree when requested", &desc, "");
+    }
+    if let Some(mask) = &run.mixed {
+        let ok = (0..=k).all(|i| out.f[i].is_some() == mask[i]);
+        s.oracle(ok, "transfer maps are reported exactly in the degrees where they were requested", &desc, "");
+    }
+    match &full {
+        Some((f, b)) => {
             let v: Vec<D<R>> = (0..=k).map(|i| D::from_cols(c.n[i], &run.vecs[i])).collect();
             let vr: Vec<D<R>> = (0..=k).map(|i| if vec_cnt_ok { D::from_cols(out.m[i], &out.vecs[i]) } else { D::zero(out.m[i], run.vecs[i].len()) }).collect();
             let data = Data { c: c.clone(), m: out.m.clone(), d: out.d.clone(), f: f.clone(), b: b.clone(), v, vr };
@@ -644,9 +718,28 @@ where R: Sc, for<'x> &'x R: RingOps<R> {
                 }
             }
         }
-        _ => {
+        None => {
+            if any_trans {
+                // transfer maps in some degrees only: every identity whose maps are all available
+                s.count("mode.mixed_trans");
+                let mut bad = vec![];
+                for i in 0..=k {
+                    let (Some(fi), Some(bi)) = (&out.f[i], &out.b[i]) else { continue };
+                    if (fi.r, fi.c) != (out.m[i], c.n[i]) || (bi.r, bi.c) != (c.n[i], out.m[i]) { bad.push(format!("shape@{}", i)); continue; }
+                    if !fi.mul(bi).is_id() { bad.push(format!("FB@{}", i)); }
+                    if vec_cnt_ok && fi.mul(&D::from_cols(c.n[i], &run.vecs[i])) != D::from_cols(out.m[i], &out.vecs[i]) { bad.push(format!("Fv@{}", i)); }
+                    if i >= 1 {
+                        if let (Some(fp), Some(bp)) = (&out.f[i - 1], &out.b[i - 1]) {
+                            if (fp.r, fp.c) != (out.m[i - 1], c.n[i - 1]) || (bp.r, bp.c) != (c.n[i - 1], out.m[i - 1]) { continue; }
+                            if fp.mul(&c.d[i]) != out.d[i].mul(fi) { bad.push(format!("Fd@{}", i)); }
+                            if c.d[i].mul(bi) != bp.mul(&out.d[i]) { bad.push(format!("dB@{}", i)); }
+                        }
+                    }
+                }
+                s.oracle(bad.is_empty(), "with transfer maps in some degrees only, every available identity (F B = 1, F d = d' F, d B = B d', v' = F v) holds", &desc, &bad.join(" "));
+            }
             // no transfer maps: vectors come in pairs (v, d v); F is a chain map, so (d v)' = d' v'
-            if vec_cnt_ok && n_tracked > 0 {
+            if run.chained && vec_cnt_ok && n_tracked > 0 {
                 let mut ok = true;
                 let mut detail = String::new();
                 for i in 1..=k {
@@ -672,19 +765,28 @@ where R: Sc, for<'x> &'x R: RingOps<R> {
 fn rand_run<R>(r: &mut Rng, c: &Cx<R>) -> Run<R>
 where R: Sc, for<'x> &'x R: RingOps<R> {
     let threads = *r.pick(&[1usize, 2, 4, 16]);
-    match r.below(10) {
-        0 => Run { mode: Mode::Reduce, with_trans: true, threads, vecs: vec![vec![]; c.k + 1] },
-        1 => Run { mode: Mode::ReducedApi, with_trans: true, threads, vecs: vec![vec![]; c.k + 1] },
-        2 => Run { mode: Mode::Reduce, with_trans: false, threads, vecs: vec![vec![]; c.k + 1] },
+    let coh = r.chance(1, 3);
+    let k = c.k;
+    let mut run = match r.below(12) {
+        0 => Run::plain(Mode::Reduce, true, threads, k),
+        1 => Run::plain(Mode::ReducedApi, true, threads, k),
+        2 => Run::plain(Mode::Reduce, false, threads, k),
         3 | 4 => { // scripted, no transfer maps, chained vectors
             let vecs = rand_vecs(r, c, true);
-            Run { mode: Mode::Script(rand_script(r, c.k)), with_trans: false, threads, vecs }
+            Run { vecs, chained: true, ..Run::plain(Mode::Script(rand_script(r, k)), false, threads, k) }
+        }
+        5 => { // transfer maps only in some degrees
+            let mask: Vec<bool> = (0..=k + 1).map(|_| r.bool()).collect();
+            let vecs = rand_vecs(r, c, false);
+            Run { vecs, mixed: Some(mask), ..Run::plain(Mode::Script(rand_script(r, k)), true, threads, k) }
         }
         _ => {
-            let vecs = if r.chance(1, 3) { vec![vec![]; c.k + 1] } else { rand_vecs(r, c, false) };
-            Run { mode: Mode::Script(rand_script(r, c.k)), with_trans: true, threads, vecs }
+            let vecs = if r.chance(1, 3) { vec![vec![]; k + 1] } else { rand_vecs(r, c, false) };
+            Run { vecs, ..Run::plain(Mode::Script(rand_script(r, k)), true, threads, k) }
         }
-    }
+    };
+    run.coh = coh;
+    run
 }
 
 fn all_threads_case<R>(ctx: &mut Ctx, r: &mut Rng, family: &str, c: &Cx<R>)
@@ -692,9 +794,124 @@ where R: Sc, for<'x> &'x R: RingOps<R> {
     // the same scripted run under every pool: each result must satisfy the identities
     let script = rand_script(r, c.k);
     let vecs = rand_vecs(r, c, false);
+    let coh = r.chance(1, 3);
     for t in [1usize, 2, 4, 16] {
-        let run = Run { mode: Mode::Script(script.clone()), with_trans: true, threads: t, vecs: vecs.clone() };
+        let run = Run { vecs: vecs.clone(), coh, ..Run::plain(Mode::Script(script.clone()), true, t, c.k) };
         run_case(ctx, r, family, c, &run);
+    }
+}
+
+// ---------------------------------------------------------------------------------------------------------
+// Khovanov complexes of small links (cube complexes after delooping, no eliminations: many unit entries)
+// ---------------------------------------------------------------------------------------------------------
+
+fn kh_complex<R>(l: &yui_link::Link, h: &R, t: &R, elim: bool) -> Option<Cx<R>>
+where R: Sc, for<'x> &'x R: RingOps<R> {
+    use yui_kh::kh::internal::v2::builder::TngComplexBuilder;
+    let mut b = TngComplexBuilder::new(l, h, t, None);
+    b.auto_elim = elim;
+    b.process_all();
+    b.finalize();
+    let kc = b.into_kh_complex();
+    let sup: Vec<isize> = kc.support().collect();
+    if sup.is_empty() { return None; }
+    let (lo, hi) = (sup[0], sup[sup.len() - 1]);
+    let k = (hi - lo) as usize;
+    // our degree j = hi - h
+    let mut d = vec![D::<R>::zero(0, kc.rank(hi))];
+    for j in 1..=k { d.push(D::from_sp(&kc.d_matrix(hi - j as isize))); }
+    let n: Vec<usize> = (0..=k).map(|j| kc.rank(hi - j as isize)).collect();
+    for j in 1..=k { if (d[j].r, d[j].c) != (n[j - 1], n[j]) { return None; } }
+    Some(Cx { k, n, d })
+}
+
+fn kh_stream<R>(ctx: &mut Ctx, r: &mut Rng, hts: &[(R, R)])
+where R: Sc, for<'x> &'x R: RingOps<R> {
+    use yui_link::Link;
+    let mut links: Vec<(&str, Link)> = vec![("unknot", Link::unknot()), ("hopf", Link::hopf_link()), ("trefoil", Link::trefoil()), ("trefoil-mirror", Link::trefoil().mirror())];
+    if ctx.thorough { links.push(("figure8", Link::figure8())); }
+    for (name, l) in &links {
+        for (h, t) in hts {
+            for elim in [false, true] {
+                let got = guard(|| kh_complex::<R>(l, h, t, elim));
+                let Some(Some(c)) = got else { ctx.s.count("kh.unavailable"); continue };
+                if c.k == 0 || c.k > 6 || !c.is_complex() { ctx.s.count("kh.skipped"); continue; }
+                ctx.s.count(&format!("kh.{}", name));
+                let fam = if elim { "khovanov-eliminated" } else { "khovanov-cube" };
+                let n_runs = if elim { 1 } else { 3 };
+                for _ in 0..n_runs {
+                    let run = rand_run(r, &c);
+                    run_case(ctx, r, fam, &c, &run);
+                }
+            }
+        }
+    }
+}
+
+// ---------------------------------------------------------------------------------------------------------
+// `Schur::from_partial_triangular` against its Lean code model (outputs are unique: exact comparison)
+// ---------------------------------------------------------------------------------------------------------
+
+fn canon_mat<R>(m: &SpMat<R>) -> String
+where R: Sc, for<'x> &'x R: RingOps<R> {
+    let d = D::from_sp(m);
+    let mut s = format!("{} {}", d.r, d.c);
+    for x in &d.a { s.push(' '); s.push_str(&x.canon()); }
+    s
+}
+
+fn schur_stream<R>(ctx: &mut Ctx, r: &mut Rng, cases: usize)
+where R: Sc, for<'x> &'x R: RingOps<R> {
+    let maxd = if ctx.thorough { 9 } else { 6 };
+    for _ in 0..cases {
+        let m = r.below(maxd + 1) as usize;
+        let n = r.below(maxd + 1) as usize;
+        let upper = r.bool();
+        let kind = r.below(12);
+        let rr = match kind {
+            0 => m.min(n) + 1 + r.below(2) as usize,          // violates the assertions
+            1 => m.min(n),
+            2 => 0,
+            _ => r.below(m.min(n) as u64 + 1) as usize,
+        };
+        let mut a = D::<R>::zero(m, n);
+        for i in 0..m { for j in 0..n {
+            let in_a = i < rr && j < rr;
+            let x = if in_a {
+                if i == j { if kind == 3 && r.chance(1, 3) { R::nonunit(r).unwrap_or_else(|| R::unit(r)) } else { R::unit(r) } }
+                else if (upper && i < j) || (!upper && i > j) { if r.chance(1, 2) { R::zero() } else { R::mult(r) } }
+                else { R::zero() }
+            } else if r.chance(2, 5) { R::zero() } else { R::mult(r) };
+            a.set(i, j, x);
+        } }
+        let sp = a.to_sp();
+        let t = if upper { TriangularType::Upper } else { TriangularType::Lower };
+        let got = guard(|| {
+            let sch = Schur::from_partial_triangular(t, &sp, rr, true);
+            let ts = sch.trans_src().unwrap();
+            let tt = sch.trans_tgt().unwrap();
+            (sch.complement().clone(), ts.forward_mat(), ts.backward_mat(), tt.forward_mat(), tt.backward_mat())
+        });
+        let mut req = format!("schur {} {} {} {} {}", R::TAG, if upper { "U" } else { "L" }, m, n, rr);
+        a.push_txt(&mut req);
+        let reply = match &got {
+            None => "panic".to_string(),
+            Some((s, fs, bs, ft, bt)) => [s, fs, bs, ft, bt].iter().map(|x| canon_mat(x)).collect::<Vec<_>>().join(" | "),
+        };
+        ctx.s.count(&format!("schur.{}", R::TAG));
+        ctx.s.count(if got.is_some() { "schur.ok" } else { "schur.panic" });
+        // oracle on the implementation alone: F_tgt * M * B_src = S, F B = 1 on both sides, S = d - c a^-1 b via a*(a^-1 b) = b
+        if let Some((s, fs, bs, ft, bt)) = &got {
+            let (s, fs, bs, ft, bt) = (D::from_sp(s), D::from_sp(fs), D::from_sp(bs), D::from_sp(ft), D::from_sp(bt));
+            let shapes = (s.r, s.c) == (m - rr, n - rr) && (fs.r, fs.c) == (n - rr, n) && (bs.r, bs.c) == (n, n - rr) && (ft.r, ft.c) == (m - rr, m) && (bt.r, bt.c) == (m, m - rr);
+            let ok = shapes && ft.mul(&a).mul(&bs) == s && fs.mul(&bs).is_id() && ft.mul(&bt).is_id()
+                && ft.mul(&a) == s.mul(&fs) && a.mul(&bs) == bt.mul(&s);
+            ctx.s.oracle(ok, "Schur step: F_tgt M B_src = S, F B = 1 on both sides, F_tgt M = S F_src, M B_src = B_tgt S", &req, &reply);
+        } else {
+            let expected = rr > m || rr > n || kind == 3;
+            ctx.s.oracle(expected, "Schur::from_partial_triangular does not panic on a partially triangular matrix with unit diagonal", &req, "panic");
+        }
+        ctx.s.case(&req, &reply, rr > 0 && got.is_some());
     }
 }
 
@@ -709,7 +926,7 @@ where R: Sc, for<'x> &'x R: RingOps<R> {
         let fam = format!("builtin:{}", name);
         ctx.s.count("builtin");
         for mode in [Mode::Reduce, Mode::ReducedApi] {
-            let run = Run { mode, with_trans: true, threads: *r.pick(&[1usize, 2, 4, 16]), vecs: vec![vec![]; c.k + 1] };
+            let run = Run::plain(mode, true, *r.pick(&[1usize, 2, 4, 16]), c.k);
             run_case(ctx, r, "builtin", &c, &run);
         }
         let run = rand_run(r, &c);
@@ -727,6 +944,7 @@ where R: Sc, for<'x> &'x R: RingOps<R> {
             3 => ("planted-dense", gen_planted::<R>(r, k, if thorough { 3 } else { 2 }, 2, true)),
             _ => ("planted", gen_planted::<R>(r, k, if thorough { 5 } else { 3 }, if thorough { 3 } else { 2 }, false)),
         };
+        if c.d.iter().any(|m| m.a.iter().any(|x| x.t().len() > 6)) { ctx.s.count("input.skipped_large_entries"); continue; }
         if !c.is_complex() {
             ctx.s.oracle(false, "HARNESS BUG: generated differentials do not square to zero", &c.full_txt(), "");
             continue;
@@ -764,26 +982,41 @@ fn boundary(ctx: &mut Ctx) {
         }
         let c = Cx { k, n: n.clone(), d };
         for mode in [Mode::Reduce, Mode::ReducedApi, Mode::Script(vec![Step::Spec(1, PivotType::Rows, PivotCondition::One)]), Mode::Script(vec![Step::Spec(0, PivotType::Cols, PivotCondition::AnyUnit), Step::All(true)])] {
-            let run = Run { mode, with_trans: true, threads: 1, vecs: vec![vec![]; k + 1] };
-            run_case(ctx, &mut r, "boundary", &c, &run);
+            for coh in [false, true] {
+                let run = Run { coh, ..Run::plain(mode.clone(), true, 1, k) };
+                run_case(ctx, &mut r, "boundary", &c, &run);
+            }
         }
     }
 }
 
 fn main() {
     let args = Args::parse();
-    quiet_panics();
+    if std::env::var("C08_LOUD").is_err() { quiet_panics(); }
     let mut sink = Sink::new(&args, "nontrivial = the reducer removed at least one generator in some degree");
     let pools = Pools::new();
     let mut rng = Rng::new(args.seed);
     let thorough = args.thorough();
     let mut ctx = Ctx { s: &mut sink, pools: &pools, thorough };
     boundary(&mut ctx);
-    let base = if thorough { 1500 } else { 150 };
+    let base = if thorough { 4000 } else { 400 };
     let mut r = rng.fork(); ring_stream::<i64>(&mut ctx, &mut r, base * 2);
     let mut r = rng.fork(); ring_stream::<Ratio<i64>>(&mut ctx, &mut r, base / 2);
     let mut r = rng.fork(); ring_stream::<FF2>(&mut ctx, &mut r, base);
     let mut r = rng.fork(); ring_stream::<FF<3>>(&mut ctx, &mut r, base);
     let mut r = rng.fork(); ring_stream::<ZH>(&mut ctx, &mut r, base);
+    // Khovanov complexes
+    let mut r = rng.fork(); kh_stream::<i64>(&mut ctx, &mut r, &[(0, 0), (0, 1), (1, 0)]);
+    let mut r = rng.fork(); kh_stream::<FF2>(&mut ctx, &mut r, &[(FF2::from_i(0), FF2::from_i(0)), (FF2::from_i(1), FF2::from_i(0))]);
+    let mut r = rng.fork(); kh_stream::<FF<3>>(&mut ctx, &mut r, &[(FF::<3>::from_i(0), FF::<3>::from_i(0)), (FF::<3>::from_i(0), FF::<3>::from_i(1))]);
+    let mut r = rng.fork(); kh_stream::<Ratio<i64>>(&mut ctx, &mut r, &[(Ratio::from(0), Ratio::from(0))]);
+    let mut r = rng.fork(); kh_stream::<ZH>(&mut ctx, &mut r, &[(ZH::variable(), ZH::from_const(0)), (ZH::from_const(0), ZH::from_const(0))]);
+    // the Schur step against its code model
+    let sc = if thorough { 3000 } else { 300 };
+    let mut r = rng.fork(); schur_stream::<i64>(&mut ctx, &mut r, sc);
+    let mut r = rng.fork(); schur_stream::<Ratio<i64>>(&mut ctx, &mut r, sc / 2);
+    let mut r = rng.fork(); schur_stream::<FF2>(&mut ctx, &mut r, sc / 2);
+    let mut r = rng.fork(); schur_stream::<FF<3>>(&mut ctx, &mut r, sc / 2);
+    let mut r = rng.fork(); schur_stream::<ZH>(&mut ctx, &mut r, sc / 2);
     sink.finish();
 }
